@@ -44,6 +44,7 @@ ARGNAMES = {
     "MutateConst": ("n", "val"),
     "MutateEnumerator": ("tag", "i", "val"),
     "AddDots": ("what", "item"),
+    "MutatePack": ("kind", "tag", "where"),
 }
 
 
